@@ -350,17 +350,40 @@ PROPS["C11"] = {
 }
 
 PROPS["C17"] = {
-    "level_text": "Proof (index/variable-mapping part, for every list of names and all variable sizes) that the formulation's index bookkeeping is exact: "
-                  "_get_dv_indices yields adjacent local index ranges (first at 0, end - start = size, next start = previous end), "
-                  "get_x_mask_x_swap_order is the concatenation of the ranges of the masking names within all names, mask_x_swap_order is the gather and "
-                  "unmask_x_swap_order the scatter along it (chunks consumed in the order of all names; zeros or x_full elsewhere); lemmas: for a "
-                  "duplicate-free sub-list in the same order, mask(unmask(y)) = y and unmask(mask(x), x_full=x) = x.",
-    "level_note": "Work in progress (see contracts/c17_formulations.py). Trusted: pyvc, numpy model (npmodel.py + plug_np_c17.py), z3, reals for floats. "
-                  "Not covered: 'optimising any of them reaches the same optimum' (optimiser behaviour), BiLevel.",
+    "level_text": "Proof (index / variable-mapping / scaling part, for every list of names, all variable sizes and all vectors) that the formulations' "
+                  "index bookkeeping is exact: _get_dv_indices yields adjacent local index ranges in the order of the names (first at 0, end - start = size, "
+                  "next start = previous end); get_x_mask_x_swap_order is the concatenation, in the order of the masking names, of their ranges within all "
+                  "names (ValueError iff a masking name is unknown); mask_x_swap_order is the gather and unmask_x_swap_order the scatter along it (vectors "
+                  "and matrices; chunks consumed in the order of all names; zeros or a copy of x_full elsewhere, arguments untouched); inductive lemmas on the "
+                  "offset functions and the two inverse lemmas mask(unmask(y)) = y and unmask(mask(x), x_full = x) = x for a duplicate-free sub-list in the "
+                  "same order; get_x_names_of_disc returns such a sub-list of the design variables (so every in-tree call site satisfies the precondition); "
+                  "FunctionFromDiscipline evaluates its adapter on exactly the gathered components of its input names and scatters the adapter's gradient "
+                  "to the columns of these variables (zeros elsewhere); the IDF consistency constraint is (y(x) - y_copy)/norm_factor component-wise with "
+                  "y_copy the coupling targets read from the design vector, hence zero exactly when y_copy = y(x) - outside the known finding below.",
+    "level_note": "Trusted: pyvc, numpy model (npmodel.py + plug_np_c17.py: builtin sum as a prefix-sum ghost function, empty/arange/copy), z3, reals for floats. "
+                  "Known finding (reported, to be triaged): with normalize_constraints and a zero or infinite normalisation factor (coupling variable with equal "
+                  "or infinite bounds - the default bounds) the consistency constraint is nan/inf or identically 0 although y_copy != y(x); region "
+                  "`degenerate-normalization-factor` of ConsistencyConstraint._func_to_wrap (replayed natively by contracts/rt_c17.py). "
+                  "Not covered: 'optimising any of them reaches the same optimum' (optimiser behaviour), total derivatives through the MDA (C07/C09), BiLevel.",
     "design_ref": "DESIGN.md §4 C17",
+    "runtime": "contracts.rt_c17",
     "modules": ["contracts.c17_formulations"],
-    "assumptions": [],
-    "not_covered": ["same optimum across formulations (optimiser behaviour)", "BiLevel", "sparse Jacobians"],
+    "assumptions": [
+        "facts about the recursive offset functions off/offm and the prefix sum psum_i used as axioms in the function contracts (off-monotone, offm-monotone, "
+        "psum-bridge, consumed-is-offset) are proved by induction (base + step obligations) in the lemma contract OffsetLemmas",
+        "c17_idx / c17_members / c17_member_index are choice functions (index of a name in a duplicate-free sequence, set of the names of a sequence)",
+        "formulation.variable_sizes agrees with the design space on its variables and sizes are >= 1 (variable_sizes is a copy taken at construction; "
+        "formulations only remove variables afterwards; DesignSpace invariant of C02)",
+        "an explicit all_data_names list is non-empty (all in-tree call sites pass the default ())",
+        "FunctionFromDiscipline / ConsistencyConstraint: the discipline adapter's value / gradient and the coupling function are deterministic uninterpreted "
+        "functions of their input vector with one output component per (differentiated input / coupling) component; the stored bound methods are those "
+        "of the formulation (ghost field c17_formulation); a grammar is seen through `name in grammar` only; scalar-output gradient (rank 1), no "
+        "differentiated-input substitute",
+    ],
+    "not_covered": ["same optimum across formulations (optimiser behaviour)", "BiLevel", "sparse Jacobians",
+                    "DisciplineAdapter (__create_discipline_input_data, _convert_jacobian_to_array: data converters / slices of the grammar)",
+                    "ConsistencyConstraint._jac_to_wrap (identity blocks; newaxis broadcasting)", "IDF._get_normalization_factor, IDF._update_design_space, "
+                    "MDF._remove_couplings_from_ds (variable-set facts)", "matrix-valued FunctionFromDiscipline Jacobians (unmask itself is proved for matrices)"],
 }
 
 _TODO = "not yet under contract in this build; see DESIGN.md §9 (build order) - no other technique is substituted"
